@@ -18,9 +18,12 @@ confirm)
   git -C /repo worktree remove --force $wt
   ;;
 check)
+  # evidence files are rewritten by every run: keep the ones from the unchanged tree
+  bak=$(mktemp -d); cp -r /verif/evidence $bak/
   git -C /repo apply $dir/patch.diff || exit 2
   for p in "$@"; do echo "== $p"; (cd /verif && ./check $p quick 2>&1 | grep -E "VIOLATION|KNOWN|^property" | cut -c1-260); done
   git -C /repo checkout -- .
   git -C /repo status --short
+  rm -rf /verif/evidence; cp -r $bak/evidence /verif/evidence; rm -rf $bak
   ;;
 esac
